@@ -42,7 +42,7 @@ def module(rng, i):
     out = ""
     flags = []
     for k, (kind, text) in enumerate(extra):
-        is_pub = kind != "import" and pub(k, n)
+        is_pub = pub(k, n)
         flags.append((kind, is_pub))
         out += ("pub " if is_pub else "") + text + "\n"
     return out, flags
@@ -73,6 +73,12 @@ def run(tier):
             m, decls, nn = DT.to_model(f[2]); hm, hdecls, hn = DT.to_model(f[3])
         except Exception as e:
             ck.violation("tie-broken:debug-format", "cannot read the Debug form of the parse tree: %s" % e, src); continue
+        # independent of the zone marks the parser leaves in the node array: no statement of a function body
+        # may be among the header's nodes
+        stmt_nodes = sorted(set(re.findall(r"\b(FunctionBody|VariableDeclaration|Assignment|Loop|Goto|Label|If|ThenElse|Block)\b", DT.nodes_text(f[3]))))
+        if stmt_nodes:
+            ck.violation("body-in-header", "the header contains nodes of function bodies: %s" % ", ".join(stmt_nodes), "source:\n%s\nheader nodes: %s" % (src, f[3][:3000]))
+            continue
         conv[cid] = (m, hm, decls, hdecls, nn, hn)
         items.append(("header", cid, m))
     model = C.run_model(items, ck.work + "/tree")
